@@ -499,7 +499,7 @@ def run(chk):
     if chk.tier == 'quick':
         explore(chk, 150, 3, n_normal=8, n_malformed=10)
     else:
-        explore(chk, 500, 4, n_normal=24, n_malformed=30)
+        explore(chk, 1100, 4, n_normal=40, n_malformed=50)
     if (chk.broken or chk.mismatches) and not chk.fails:
         explore(chk, 300 if chk.tier == 'quick' else 1500, 3 if chk.tier == 'quick' else 4, do_model=False, n_normal=10)
 
